@@ -244,25 +244,30 @@ Proof.
   rewrite <- pow256 by lia. rewrite Z.mod_mod by (apply Z.pow_nonzero; lia). reflexivity.
 Qed.
 
-Lemma mem_after_app W l1 : forall l2 m, mem_after W (l1 ++ l2) m = mem_after W l2 (mem_after W l1 m).
-Proof. induction l1 as [|r t IH]; intros; cbn; [reflexivity|apply IH]. Qed.
-Lemma resps_app W l1 : forall l2 m, resps W (l1 ++ l2) m = resps W l1 m ++ resps W l2 (mem_after W l1 m).
-Proof. induction l1 as [|r t IH]; intros; cbn; [reflexivity|rewrite IH; reflexivity]. Qed.
-Lemma mem_after_wf W l : forall m, wf m -> wf (mem_after W l m).
-Proof. induction l as [|r t IH]; intros m H; cbn; [assumption|apply IH, mem_step_wf, H]. Qed.
-Lemma resps_length W l : forall m, length (resps W l m) = length l.
-Proof. induction l as [|r t IH]; intros; cbn; [reflexivity|rewrite IH; reflexivity]. Qed.
+Lemma mem_after_app l1 : forall l2 m, mem_after (l1 ++ l2) m = mem_after l2 (mem_after l1 m).
+Proof. induction l1 as [|[W r] t IH]; intros; cbn; [reflexivity|apply IH]. Qed.
+Lemma resps_app l1 : forall l2 m, resps (l1 ++ l2) m = resps l1 m ++ resps l2 (mem_after l1 m).
+Proof. induction l1 as [|[W r] t IH]; intros; cbn; [reflexivity|rewrite IH; reflexivity]. Qed.
+Lemma mem_after_wf l : forall m, wf m -> wf (mem_after l m).
+Proof. induction l as [|[W r] t IH]; intros m H; cbn; [assumption|apply IH, mem_step_wf, H]. Qed.
+Lemma resps_length l : forall m, length (resps l m) = length l.
+Proof. induction l as [|[W r] t IH]; intros; cbn; [reflexivity|rewrite IH; reflexivity]. Qed.
 
 Lemma untag_app {A} (l1 l2 : list (nat * A)) : untag (l1 ++ l2) = untag l1 ++ untag l2.
 Proof. apply map_app. Qed.
-Lemma tmem_after_app W l1 l2 m : tmem_after W (l1 ++ l2) m = tmem_after W l2 (tmem_after W l1 m).
-Proof. unfold tmem_after. rewrite untag_app. apply mem_after_app. Qed.
-Lemma tresps_app W l1 : forall l2 m, tresps W (l1 ++ l2) m = tresps W l1 m ++ tresps W l2 (tmem_after W l1 m).
+Lemma widths_app Wp l1 l2 : widths Wp (l1 ++ l2) = widths Wp l1 ++ widths Wp l2.
+Proof. apply map_app. Qed.
+Lemma tmem_after_app Wp l1 l2 m : tmem_after Wp (l1 ++ l2) m = tmem_after Wp l2 (tmem_after Wp l1 m).
+Proof. unfold tmem_after. rewrite widths_app. apply mem_after_app. Qed.
+Lemma tresps_app Wp l1 : forall l2 m, tresps Wp (l1 ++ l2) m = tresps Wp l1 m ++ tresps Wp l2 (tmem_after Wp l1 m).
 Proof.
   induction l1 as [|[p r] t IH]; intros; cbn; [reflexivity|]. rewrite IH. reflexivity.
 Qed.
-Lemma tresps_untag W l : forall m, untag (tresps W l m) = resps W (untag l) m.
+Lemma tresps_untag Wp l : forall m, untag (tresps Wp l m) = resps (widths Wp l) m.
 Proof. induction l as [|[p r] t IH]; intros; cbn; [reflexivity|f_equal; apply IH]. Qed.
+(* when every port has the same width the tagged log is the plain uniform sequence *)
+Lemma widths_uniform W l : widths (fun _ => W) l = uniform W (untag l).
+Proof. unfold widths, uniform, untag. rewrite map_map. reflexivity. Qed.
 
 Lemma on_port_app {A} p (l1 l2 : list (nat * A)) : on_port p (l1 ++ l2) = on_port p l1 ++ on_port p l2.
 Proof. unfold on_port. rewrite filter_app, map_app. reflexivity. Qed.
@@ -271,34 +276,35 @@ Proof. unfold on_port. cbn. rewrite Nat.eqb_refl. reflexivity. Qed.
 Lemma on_port_one_other {A} p q (x : A) : q <> p -> on_port p [(q, x)] = [].
 Proof. intros H. unfold on_port. cbn. destruct (Nat.eqb_spec q p); [contradiction|reflexivity]. Qed.
 
+(* "request wr (with its port's width) does not write byte x" *)
+Definition no_write (x : Z) (wr : wreq) : Prop := writes_at (fst wr) (snd wr) x = false.
+
 (* bytes that no request of a sequence writes keep their value *)
-Lemma no_write_frame W l x : forall m,
-  Forall (fun r => writes_at W r x = false) l -> mem_after W l m x = m x.
+Lemma no_write_frame l x : forall m, Forall (no_write x) l -> mem_after l m x = m x.
 Proof.
-  induction l as [|r t IH]; intros m H; cbn; [reflexivity|].
+  induction l as [|[W r] t IH]; intros m H; cbn; [reflexivity|].
   inversion H; subst. rewrite IH by assumption. apply request_frame. assumption.
 Qed.
 
-(* most recent write wins, byte by byte *)
-Theorem byte_is_most_recent_write W l1 w l2 m0 x b :
-  stores W w (mem_after W l1 m0) x = Some b ->
-  Forall (fun r => writes_at W r x = false) l2 ->
-  mem_after W (l1 ++ w :: l2) m0 x = b.
+(* most recent write wins, byte by byte; every request carries the data width of its own port *)
+Theorem byte_is_most_recent_write l1 (w : wreq) l2 m0 x b :
+  stores (fst w) (snd w) (mem_after l1 m0) x = Some b ->
+  Forall (no_write x) l2 ->
+  mem_after (l1 ++ w :: l2) m0 x = b.
 Proof.
-  intros Hs Hl2. rewrite mem_after_app. cbn [mem_after].
-  rewrite no_write_frame by assumption. rewrite mem_step_get, Hs. reflexivity.
+  intros Hs Hl2. destruct w as [Ww w]. rewrite mem_after_app. cbn [mem_after].
+  rewrite no_write_frame by assumption. rewrite mem_step_get. cbn [fst snd] in Hs. rewrite Hs. reflexivity.
 Qed.
-Theorem byte_never_written W l m0 x :
-  Forall (fun r => writes_at W r x = false) l -> mem_after W l m0 x = m0 x.
+Theorem byte_never_written l m0 x : Forall (no_write x) l -> mem_after l m0 x = m0 x.
 Proof. apply no_write_frame. Qed.
 
-(* a read processed after the sequence l1 ++ w :: l2 returns, for its byte k, what w stored at that address
-   provided nothing later touched that byte — whatever else l1, l2 did around it *)
-Theorem read_returns_most_recent_write W l1 w l2 rd m0 k b :
+(* a read (on a port of width W) processed after the sequence l1 ++ w :: l2 returns, for its byte k, what w stored
+   at that address provided nothing later touched that byte — whatever else l1, l2 did around it *)
+Theorem read_returns_most_recent_write W l1 (w : wreq) l2 rd m0 k b :
   wf m0 -> q_type rd = TRead -> 0 <= k < Z.of_nat (eff_len W rd) ->
-  stores W w (mem_after W l1 m0) (q_addr rd + k) = Some b ->
-  Forall (fun r => writes_at W r (q_addr rd + k) = false) l2 ->
-  byte_k (p_data (resp_of W rd (mem_after W (l1 ++ w :: l2) m0))) k = b.
+  stores (fst w) (snd w) (mem_after l1 m0) (q_addr rd + k) = Some b ->
+  Forall (no_write (q_addr rd + k)) l2 ->
+  byte_k (p_data (resp_of W rd (mem_after (l1 ++ w :: l2) m0))) k = b.
 Proof.
   intros Hwf Ht Hk Hs Hl2. rewrite read_resp_data by assumption.
   rewrite read_n_byte by (try apply mem_after_wf; assumption).
@@ -306,18 +312,18 @@ Proof.
 Qed.
 Theorem read_returns_initial_if_never_written W l rd m0 k :
   wf m0 -> q_type rd = TRead -> 0 <= k < Z.of_nat (eff_len W rd) ->
-  Forall (fun r => writes_at W r (q_addr rd + k) = false) l ->
-  byte_k (p_data (resp_of W rd (mem_after W l m0))) k = m0 (q_addr rd + k).
+  Forall (no_write (q_addr rd + k)) l ->
+  byte_k (p_data (resp_of W rd (mem_after l m0))) k = m0 (q_addr rd + k).
 Proof.
   intros Hwf Ht Hk Hl. rewrite read_resp_data by assumption.
   rewrite read_n_byte by (try apply mem_after_wf; assumption). apply no_write_frame. assumption.
 Qed.
 (* the same for the old value returned by an AMO *)
-Theorem amo_returns_most_recent_write W l1 w l2 rd op m0 k b :
+Theorem amo_returns_most_recent_write W l1 (w : wreq) l2 rd op m0 k b :
   wf m0 -> q_type rd = TAmo op -> 0 <= k < Z.of_nat (eff_len W rd) ->
-  stores W w (mem_after W l1 m0) (q_addr rd + k) = Some b ->
-  Forall (fun r => writes_at W r (q_addr rd + k) = false) l2 ->
-  byte_k (p_data (resp_of W rd (mem_after W (l1 ++ w :: l2) m0))) k = b.
+  stores (fst w) (snd w) (mem_after l1 m0) (q_addr rd + k) = Some b ->
+  Forall (no_write (q_addr rd + k)) l2 ->
+  byte_k (p_data (resp_of W rd (mem_after (l1 ++ w :: l2) m0))) k = b.
 Proof.
   intros Hwf Ht Hk Hs Hl2. rewrite amo_resp_data with (op := op) by assumption.
   rewrite read_n_byte by (try apply mem_after_wf; assumption).
@@ -325,9 +331,9 @@ Proof.
 Qed.
 
 (* responses echo their requests, position by position *)
-Lemma resps_echo W l : forall m, Forall2 echo (resps W l m) l.
-Proof. induction l as [|r t IH]; intros m; cbn; constructor; [apply resp_of_echo|apply IH]. Qed.
-Lemma tresps_on_port_echo W p l : forall m, Forall2 echo (on_port p (tresps W l m)) (on_port p l).
+Lemma resps_echo l : forall m, Forall2 echo (resps l m) (map snd l).
+Proof. induction l as [|[W r] t IH]; intros m; cbn; constructor; [apply resp_of_echo|apply IH]. Qed.
+Lemma tresps_on_port_echo Wp p l : forall m, Forall2 echo (on_port p (tresps Wp l m)) (on_port p l).
 Proof.
   induction l as [|[q r] t IH]; intros m; cbn; [constructor|].
   unfold on_port in *. cbn. destruct (Nat.eqb q p); cbn; [constructor; [apply resp_of_echo|apply IH]|apply IH].
@@ -425,7 +431,7 @@ Lemma set_port_other f p v q : q <> p -> set_port f p v q = f q.
 Proof. intros H. unfold set_port. destruct (Nat.eqb_spec q p); [contradiction|reflexivity]. Qed.
 
 (* the invariant: nothing is lost, duplicated or reordered on any port; the memory is the fold of the log *)
-Definition Inv (W : Z) (reqs : nat -> list req) (m0 : mem) (s : state) : Prop :=
+Definition Inv (W : nat -> Z) (reqs : nat -> list req) (m0 : mem) (s : state) : Prop :=
   (forall p, reqs p = on_port p (slog s) ++ req_inflight s p ++ pending (ports s p)) /\
   (forall p, on_port p (tresps W (slog s) m0) = delivered s p ++ resp_inflight s p) /\
   smem s = tmem_after W (slog s) m0.
@@ -459,9 +465,9 @@ Proof.
   - (* Service *)
     destruct (pipe_exit (qpipe (ports s p))) as [r|] eqn:E; [|auto].
     destruct (head_free (rpipe (ports s p))) eqn:F; [|auto].
-    destruct (apply W r (smem s)) as [x m'] eqn:Ap.
-    assert (Hx : x = resp_of W r (tmem_after W (slog s) m0)) by (unfold resp_of; rewrite <- I3, Ap; reflexivity).
-    assert (Hm : m' = mem_step W r (tmem_after W (slog s) m0)) by (unfold mem_step; rewrite <- I3, Ap; reflexivity).
+    destruct (apply (W p) r (smem s)) as [x m'] eqn:Ap.
+    assert (Hx : x = resp_of (W p) r (tmem_after W (slog s) m0)) by (unfold resp_of; rewrite <- I3, Ap; reflexivity).
+    assert (Hm : m' = mem_step (W p) r (tmem_after W (slog s) m0)) by (unfold mem_step; rewrite <- I3, Ap; reflexivity).
     cbn [ports smem slog]. repeat split.
     + intros q. rewrite on_port_app. port_cases q p.
       * cbn [pending qpipe]. rewrite on_port_one_same. rewrite (I1 p), (inflight_exit r _ E).
@@ -529,7 +535,7 @@ Qed.
 (* the memory image is that of applying the serviced requests one after another *)
 Theorem memory_is_fold_of_log W reqs qlat rlat m0 sched :
   let s := exec W (init reqs qlat rlat m0) sched in
-  smem s = mem_after W (untag (slog s)) m0.
+  smem s = mem_after (widths W (slog s)) m0.
 Proof. intros s. destruct (pipeline_invariant W reqs qlat rlat m0 sched) as (_ & _ & I3). apply I3. Qed.
 
 (* when a port has drained, all its requests were serviced and all their responses delivered *)
@@ -594,6 +600,11 @@ Proof.
   subst q. constructor; [reflexivity|]. apply IH. intros q N. specialize (H q N).
   unfold on_port in *. cbn in H. destruct (Nat.eqb_spec p q); [subst; contradiction|assumption].
 Qed.
+Lemma widths_all Wp p l : Forall (fun x => fst x = p) l -> widths Wp l = uniform (Wp p) (untag l).
+Proof.
+  induction l as [|[q x] t IH]; intros H; [reflexivity|]. inversion H; subst. cbn in *. subst.
+  f_equal. apply IH. assumption.
+Qed.
 Lemma tresps_fst W l : forall m, map fst (tresps W l m) = map fst l.
 Proof. induction l as [|[p r] t IH]; intros; cbn; [reflexivity|rewrite IH; reflexivity]. Qed.
 
@@ -603,8 +614,8 @@ Theorem single_port_deterministic W reqs qlat rlat m0 sched :
   exists done rest more,
     reqs 0%nat = done ++ rest /\
     untag (slog s) = done /\
-    resps W done m0 = delivered s 0%nat ++ more /\
-    smem s = mem_after W done m0.
+    resps (uniform (W 0%nat) done) m0 = delivered s 0%nat ++ more /\
+    smem s = mem_after (uniform (W 0%nat) done) m0.
 Proof.
   intros Hs s. destruct (pipeline_invariant W reqs qlat rlat m0 sched) as (I1 & I2 & I3). fold s in I1, I2, I3.
   assert (Hall : Forall (fun x => fst x = 0%nat) (slog s)).
@@ -616,8 +627,9 @@ Proof.
   exists (untag (slog s)), (req_inflight s 0%nat ++ pending (ports s 0%nat)), (resp_inflight s 0%nat).
   repeat split.
   - rewrite (I1 0%nat), on_port_all by assumption. reflexivity.
-  - rewrite <- tresps_untag, <- on_port_all with (p := 0%nat) by assumption. apply I2.
-  - apply I3.
+  - rewrite <- (widths_all W 0%nat) by assumption.
+    rewrite <- tresps_untag, <- on_port_all with (p := 0%nat) by assumption. apply I2.
+  - rewrite <- (widths_all W 0%nat) by assumption. apply I3.
 Qed.
 
 (* ================================================================== E. the history acceptor is sound *)
@@ -683,11 +695,12 @@ Qed.
 (* What an accepted history means.  reqs, order, out, img are the OBSERVED quantities (request streams handed to
    the ports, MagicMemoryFL calls in the order they happened, responses that arrived, read_mem() at the end);
    l is the explanation.  complete=true additionally demands that every request was serviced and answered. *)
-Definition history_ok (W : Z) (init : list (Z * Z)) (reqs : list (list req)) (order : list (nat * call))
+Definition history_ok (Ws : list Z) (init : list (Z * Z)) (reqs : list (list req)) (order : list (nat * call))
            (out : list (list resp)) (img : list (Z * Z)) (complete : bool) (l : tlog) : Prop :=
   let m0 := mem_of_list init mem0 in
-  (* only configured ports are serviced *)
-  (forall p r, In (p, r) l -> (p < length reqs)%nat) /\
+  let W := port_width Ws in          (* data width in bytes of each port *)
+  (* only configured ports are serviced; every port has a width *)
+  (forall p r, In (p, r) l -> (p < length reqs)%nat) /\ length Ws = length reqs /\
   (* every port is serviced in its request order, without gaps *)
   (forall p rs, nth_error reqs p = Some rs ->
      exists rest, rs = on_port p l ++ rest /\ (complete = true -> rest = [])) /\
@@ -697,19 +710,20 @@ Definition history_ok (W : Z) (init : list (Z * Z)) (reqs : list (list req)) (or
   (forall p rs, nth_error out p = Some rs ->
      exists rest, on_port p (tresps W l m0) = rs ++ rest /\ (complete = true -> rest = [])) /\
   (* the final image is the initial image with the serviced requests applied one after another *)
-  (forall a b, In (a, b) img -> mem_after W (untag l) m0 a = b).
+  (forall a b, In (a, b) img -> mem_after (widths W l) m0 a = b).
 
-Theorem check_history_sound W init reqs order out img complete l :
-  check_history W init reqs order out img complete l = true ->
-  history_ok W init reqs order out img complete l.
+Theorem check_history_sound Ws init reqs order out img complete l :
+  check_history Ws init reqs order out img complete l = true ->
+  history_ok Ws init reqs order out img complete l.
 Proof.
   unfold check_history, history_ok. intros H.
   apply andb_prop in H; destruct H as [H Himg]. apply andb_prop in H; destruct H as [H Hout].
   apply andb_prop in H; destruct H as [H Hcalls]. apply andb_prop in H; destruct H as [H Hreq].
-  apply andb_prop in H; destruct H as [Hports Hlen].
+  apply andb_prop in H; destruct H as [H Hlen]. apply andb_prop in H; destruct H as [Hports Hws].
   repeat split.
   - intros p r Hin. unfold log_in_ports in Hports. rewrite forallb_forall in Hports.
     specialize (Hports (p, r) Hin). cbn in Hports. apply Nat.ltb_lt in Hports. assumption.
+  - apply Nat.eqb_eq in Hws. assumption.
   - intros p rs E. pose proof (ports_ok_nth _ _ _ Hreq p rs E) as F. cbn in F.
     destruct complete.
     + apply list_eqb_eq in F; [|apply req_eqb_eq]. exists []. rewrite app_nil_r. auto.
@@ -724,14 +738,14 @@ Proof.
 Qed.
 
 (* an accepted history has responses that echo the port's requests in order *)
-Corollary accepted_history_echo W init reqs order out img complete l p rs os :
-  check_history W init reqs order out img complete l = true ->
+Corollary accepted_history_echo Ws init reqs order out img complete l p rs os :
+  check_history Ws init reqs order out img complete l = true ->
   nth_error reqs p = Some rs -> nth_error out p = Some os ->
   exists rs1 rest, rs = rs1 ++ rest /\ Forall2 echo os rs1.
 Proof.
-  intros H Er Eo. apply check_history_sound in H. destruct H as (_ & H1 & _ & H3 & _).
+  intros H Er Eo. apply check_history_sound in H. destruct H as (_ & _ & H1 & _ & H3 & _).
   destruct (H1 p rs Er) as (rest1 & E1 & _). destruct (H3 p os Eo) as (rest2 & E2 & _).
-  pose proof (tresps_on_port_echo W p l (mem_of_list init mem0)) as F. rewrite E2 in F.
+  pose proof (tresps_on_port_echo (port_width Ws) p l (mem_of_list init mem0)) as F. rewrite E2 in F.
   apply Forall2_app_inv_l in F. destruct F as (l1 & l2 & F1 & _ & E).
   exists l1, (l2 ++ rest1). split; [|assumption]. rewrite E1, E, <- app_assoc. reflexivity.
 Qed.
@@ -742,7 +756,7 @@ Theorem model_history_ok W reqs qlat rlat m0 sched :
   let s := exec W (init reqs qlat rlat m0) sched in
   (forall p, exists rest, reqs p = on_port p (slog s) ++ rest) /\
   (forall p, exists rest, on_port p (tresps W (slog s) m0) = delivered s p ++ rest) /\
-  smem s = mem_after W (untag (slog s)) m0.
+  smem s = mem_after (widths W (slog s)) m0.
 Proof.
   intros s. repeat split.
   - intros p. apply service_in_request_order.
